@@ -330,13 +330,18 @@ fn l1(rep: &Arc<Reporter>, args: &Args) {
             let mut cuts: Vec<usize> = (0..k).map(|_| r.range(1, h.bytes.len() as u64 - 1) as usize).collect();
             cuts.sort(); cuts.dedup();
             let _ = crate::kit::write_segments(&mut tcp, &h.bytes, &cuts, Duration::from_millis(2)).await;
-            tokio::time::sleep(Duration::from_millis(60)).await;
+            // the acceptor reports as soon as it has parsed the hello through the wrapped stream; poll for it (bounded)
+            let t0 = std::time::Instant::now();
+            while seen.lock().unwrap().len() <= before && t0.elapsed() < Duration::from_secs(6) { tokio::time::sleep(Duration::from_millis(10)).await; }
+            let lag = { let t = std::time::Instant::now(); tokio::time::sleep(Duration::from_millis(20)).await; t.elapsed().as_millis() as u64 };
             rep.evals(1);
             rep.distinct(common::fnv(&h.bytes));
             let mine = { let g = seen.lock().unwrap(); g.get(before).cloned() };
             let w = json!({"kind":"client-random-l1-synthetic","hello":h.kind,"flight_len":h.bytes.len(),"cuts":cuts,"observed":format!("{:?}", mine).chars().take(200).collect::<String>()});
             match mine {
-                None => rep.tally("l1 synthetic: acceptor still waiting / refused the hello (not judged)", 1),
+                None if lag > 500 => rep.inconclusive("l1 synthetic: no observation within 6 s on a machine with > 0.5 s scheduling lag"),
+                // every byte of the first flight was written 6 s ago: the TLS stack behind the peek never got the whole hello
+                None => rep.violation("the TLS stack never received the complete ClientHello the client sent (bytes lost behind the peek, handshake stalled)", w),
                 Some((cr, sni, al)) => {
                     if let Some(x) = &cr { if x[..] != h.random[..] { rep.violation("client random differs from the one the client sent", w.clone()); } }
                     if cr.is_none() && h.complete_in_first_record && h.bytes.len() < 16000 { rep.violation("client random of a complete, unfragmented ClientHello reported as absent", w.clone()); }
